@@ -213,22 +213,44 @@ func (e *Engine) lemmaCtx(l *Lemma) (fc *FnCtx, err error) {
 	}
 	env := &Env{fc: fc, heap: &fc.entry, old: &fc.entry, bound: bound, lookup: func(string) (Val, bool) { return Val{}, false }}
 	if l.Induc != "" {
-		// strong induction on the integer parameter v: assume the statement for every 0 <= v2 < v
-		// (for v < 0 the hypothesis is empty, so the statement is proved outright there)
-		iv, ok := bound[l.Induc]
-		if !ok || iv.K != KInt {
-			fc.fail("induct: %s is not an integer parameter", l.Induc)
+		// well-founded induction on the non-negative integer measure `induct <expr> over <vars>`:
+		// assume the statement for all values of the listed variables with 0 <= measure' < measure
+		// (if the measure is negative the hypothesis is empty and the statement is proved outright)
+		me, perr := parseExpr(l.Induc)
+		if perr != nil {
+			fc.fail("induct: %v", perr)
 		}
-		fc.nfresh++
-		q := fmt.Sprintf("ih!q%d", fc.nfresh)
+		general := l.General
+		if id, ok := me.(*EIdent); ok && len(general) == 0 {
+			general = []string{id.Name}
+		}
 		b2 := map[string]Val{}
-		for k, v := range bound {
-			b2[k] = v
+		var qs []string
+		for _, p := range l.Params {
+			if !inList(general, p.Name) {
+				b2[p.Name] = bound[p.Name]
+				continue
+			}
+			switch p.Type {
+			case "seq", "string":
+				fc.fail("induct: cannot generalise the sequence parameter %s", p.Name)
+			case "bool":
+				fc.nfresh++
+				n := fmt.Sprintf("ih!q%d", fc.nfresh)
+				qs = append(qs, fmt.Sprintf("(%s Bool)", n))
+				b2[p.Name] = boolVal(n)
+			default:
+				fc.nfresh++
+				n := fmt.Sprintf("ih!q%d", fc.nfresh)
+				qs = append(qs, fmt.Sprintf("(%s Int)", n))
+				b2[p.Name] = intVal(n)
+			}
 		}
-		b2[l.Induc] = intVal(q)
 		env2 := &Env{fc: fc, heap: &fc.entry, old: &fc.entry, bound: b2, lookup: func(string) (Val, bool) { return Val{}, false }}
+		m1 := fc.evalExpr(me, env).S()
+		m2 := fc.evalExpr(me, env2).S()
 		ih := fc.evalBool(l.C.E, env2)
-		fc.assert(fmt.Sprintf("(forall ((%s Int)) (=> (and (<= 0 %s) (< %s %s)) %s))", q, q, q, iv.S(), ih))
+		fc.assert(fmt.Sprintf("(forall (%s) (=> (and (<= 0 %s) (< %s %s)) %s))", strings.Join(qs, " "), m2, m2, m1, ih))
 	}
 	f := fc.evalBool(l.C.E, env)
 	ob := fc.oblige("lemma", l.Name, f, 0, &l.C)
@@ -348,4 +370,13 @@ func (fc *FnCtx) applyLemma(ce *ECall, env *Env) {
 	}
 	env2 := &Env{fc: fc, heap: env.heap, old: &fc.entry, bound: bound, lookup: func(string) (Val, bool) { return Val{}, false }}
 	fc.assumeHere(fc.evalBool(l.C.E, env2))
+}
+
+func inList(xs []string, x string) bool {
+	for _, y := range xs {
+		if y == x {
+			return true
+		}
+	}
+	return false
 }
